@@ -173,22 +173,29 @@ var zzXPaths = []string{
 	"/R/Q/T[x]",
 	"//T[x='1']",
 	"/R/T[not(x)]",
+	"/R/T[x='1'][@a='1']",
+	"//T[@a='1'][x]",
 }
+
+// zzXBase: the same paths without the final step's predicates (the candidates), written out
+// by hand so that the reference does not depend on the code that splits the expression.
+var zzXBase = []string{"/R/T", "//T", "/R/T", "/R/*", "/R/T", "/R/Q/T", "//T", "/R/T", "/R/T", "//T"}
 
 // C04XmlSelect: the records the streaming reader delivers are exactly what the same xpath
 // selects on the fully loaded document: outermost candidates only, delivered iff they satisfy
 // the predicate themselves, in document order, each with its complete subtree.
 func C04XmlSelect() {
 	K := zz.Param("K", 2)
-	xp := zzXPaths[zz.NondetChoice("xpath", len(zzXPaths))]
+	xi := zz.NondetChoice("xpath", len(zzXPaths))
+	xp := zzXPaths[xi]
 	if f := zz.Param("xpath", -1); f >= 0 {
-		zz.Assume(xp == zzXPaths[f])
+		zz.Assume(xi == f)
 	}
 	doc := zzDoc(K)
 	// reference: whole document, real xpath engine
 	refRoot := CreateXMLNode(DocumentNode, "", XMLSpecific{})
 	doc.build(refRoot)
-	cands, err := MatchAll(refRoot, removeLastFilterInXPath(xp))
+	cands, err := MatchAll(refRoot, zzXBase[xi])
 	zz.Assume(err == nil)
 	var want []string
 	for _, c := range cands {
@@ -445,7 +452,7 @@ func C16XmlStream() {
 		spa.Release(n)
 	}
 	failAt := zz.NondetChoice("failAt", len(doc)+1)
-	spb, err := NewXMLStreamReader(&zzChunkReader{data: append([]byte{}, doc...), failAt: failAt, ioErr: zzIOErr}, "/R/T")
+	spb, err := NewXMLStreamReader(&zzChunkReader{data: append([]byte{}, doc...), failAt: failAt, ioErr: zzPickIOErr()}, "/R/T")
 	zz.Assume(err == nil)
 	got := 0
 	pending, havePending := "", false
